@@ -19,11 +19,16 @@ Tie (DESIGN.md §3 C03):
     * the whole pipeline: `variables` JSON captured at the transport of a REAL generated package
       called with REAL Python arguments vs `Model.ArgSend.send`; packages are generated from `schema_path`
       or from `remote_schema_url` (introspection of an in-process endpoint);
+    * programs: calls of a real generated method interleaved with the caller's own statements (attribute assignment on an
+      input-model instance, item assignment / append on a list) over objects the caller KEEPS and passes again, with
+      instances shared between lists: what every call sent, and a snapshot (by identity) of the caller's objects afterwards,
+      vs `Model.ArgHeap.runC` / `storeWith` (the base client's `_convert_value` statement by statement on a store of objects);
   oracle (the property itself, independent of the Lean model): generate real packages, call the
     methods with schema-valid arguments (generated input-model instances, enum members, instrumented
     scalar objects, None, omitted), capture `variables`, let graphql-core coerce them and run a
     recording resolver; check: accepted; the resolver receives exactly the caller's values under the
-    original names; omitted / unset absent; None -> null; a required variable cannot be omitted.
+    original names; omitted / unset absent; None -> null; a required variable cannot be omitted; in a program, EVERY
+    call delivers what the caller's objects hold at the time of that call.
 """
 from __future__ import annotations
 
@@ -517,14 +522,16 @@ def child_e2e(root: Path, case: Dict[str, Any]) -> Dict[str, Any]:
                                                                              "inner": [_construct_outcome(t) for t in trace2][-1:]})
     results = []
     out["calls"] = results
-    for call in case.get("calls", []):
+
+    def run_call(call: Dict[str, Any], prebuilt: Optional[List[Any]] = None) -> Dict[str, Any]:
+        """one call of a generated method; `prebuilt`: the REAL argument objects, aligned with the variable definitions
+        (`_OMIT` = argument omitted), instead of building them from the value specs"""
         rec: Dict[str, Any] = {"op": call["op"]}
-        results.append(rec)
         m = methods.get(call["op"])
         node = op_nodes.get(call["op"])
         if m is None or node is None:
             rec["outcome"] = "no-method"
-            continue
+            return rec
         defs = out["defs"][call["op"]]
         rng = random.Random(call.get("seed", 0))
         response_obj = gen_result(rng, case)
@@ -554,18 +561,23 @@ def child_e2e(root: Path, case: Dict[str, Any]) -> Dict[str, Any]:
         kwargs: Dict[str, Any] = {}
         build_error = None
         trace: List[Dict[str, Any]] = []
-        for d, spec in zip(defs, call["values"]):
-            if isinstance(spec, dict) and spec.get("k") == "unset":
-                continue
-            try:
-                kwargs[varmap.get(d["name"], d["name"])] = argwire.build_py(spec, pkg, case, trace)
-            except BaseException as e:  # noqa: BLE001
-                build_error = f"{d['name']}: {type(e).__name__}: {str(e)[:200]}"
+        if prebuilt is not None:
+            for d, obj in zip(defs, prebuilt):
+                if obj is not _OMIT:
+                    kwargs[varmap.get(d["name"], d["name"])] = obj
+        else:
+            for d, spec in zip(defs, call["values"]):
+                if isinstance(spec, dict) and spec.get("k") == "unset":
+                    continue
+                try:
+                    kwargs[varmap.get(d["name"], d["name"])] = argwire.build_py(spec, pkg, case, trace)
+                except BaseException as e:  # noqa: BLE001
+                    build_error = f"{d['name']}: {type(e).__name__}: {str(e)[:200]}"
         rec["constructs"] = [_construct_outcome(t) for t in trace]
         if build_error:
             rec["outcome"] = "build-error"
             rec["message"] = build_error
-            continue
+            return rec
         if smod is not None:
             smod.LOG.clear()
         try:
@@ -600,7 +612,113 @@ def child_e2e(root: Path, case: Dict[str, Any]) -> Dict[str, Any]:
                         rec["coercions"].append({"inputs": variant, "result": coerce_real(schema, node, variant)})
                     except BaseException as e:  # noqa: BLE001 - graphql-core itself crashed on a corrupted input
                         rec["coercions"].append({"inputs": variant, "result": {"crash": type(e).__name__}})
+        return rec
+
+    for call in case.get("calls", []):
+        results.append(run_call(call))
+
+    # programs: calls interleaved with the caller's own statements, over objects the caller keeps (Model/ArgHeap.lean)
+    out["programs"] = []
+    for prog in case.get("programs", []):
+        out["programs"].append(_run_program(prog, pkg, case, run_call))
     return out
+
+
+_OMIT = object()
+
+
+def _run_program(prog: Dict[str, Any], pkg: Any, case: Dict[str, Any], run_call: Any) -> Dict[str, Any]:
+    """build the REAL objects of `prog["store"]` (address = position, children have lower addresses), run the steps,
+    report what every call sent / the resolver received, and a snapshot of the caller's objects afterwards"""
+    from pydantic import BaseModel
+
+    objs: List[Any] = []
+    prec: Dict[str, Any] = {"calls": []}
+
+    def val(cv: Dict[str, Any]) -> Any:
+        if "ref" in cv:
+            return objs[cv["ref"]]
+        spec = cv["imm"]
+        if isinstance(spec, dict) and spec.get("k") == "unset":
+            return _OMIT
+        return argwire.build_py(spec, pkg, case)
+
+    def attr_names(cls: Any) -> List[Tuple[str, Optional[str]]]:
+        return [(py, f.alias) for py, f in cls.model_fields.items()]
+
+    def rebind(b: int, actual: Any) -> None:
+        if not isinstance(actual, list):
+            return
+        objs[b] = actual
+        for x, item in zip(prog["store"][b]["xs"], actual):
+            if "ref" in x and prog["store"][x["ref"]]["k"] == "list":
+                rebind(x["ref"], item)
+
+    try:
+        for o in prog["store"]:
+            if o["k"] == "list":
+                objs.append([val(x) for x in o["xs"]])
+            else:
+                cls = getattr(pkg, o["cls"])
+                names = attr_names(cls)
+                kw = {}
+                for i, f in enumerate(o["fields"]):
+                    v = val(f["v"])
+                    if v is _OMIT:
+                        continue
+                    py, alias = names[i]
+                    kw[py if f.get("by") == "name" or alias is None else alias] = v
+                inst = cls(**kw)
+                objs.append(inst)
+                # pydantic validation COPIES a list handed to the constructor (the instances inside are kept by reference):
+                # the list object at that address is, from now on, the one the instance really holds
+                for i, f in enumerate(o["fields"]):
+                    if "ref" in f["v"] and prog["store"][f["v"]["ref"]]["k"] == "list":
+                        rebind(f["v"]["ref"], getattr(inst, names[i][0]))
+    except BaseException as e:  # noqa: BLE001
+        prec["build_error"] = f"{type(e).__name__}: {str(e)[:200]}"
+        return prec
+    for st in prog["steps"]:
+        try:
+            if st["k"] == "call":
+                prec["calls"].append(run_call({"op": st["op"], "values": [], "seed": st.get("seed", 0), "n_corrupt": 0},
+                                              [val(a) for a in st["args"]]))
+            elif st["k"] == "setField":
+                obj = objs[st["a"]]
+                setattr(obj, attr_names(type(obj))[st["i"]][0], val(st["v"]))
+            elif st["k"] == "setItem":
+                objs[st["a"]][st["i"]] = val(st["v"])
+            elif st["k"] == "append":
+                objs[st["a"]].append(val(st["v"]))
+        except BaseException as e:  # noqa: BLE001
+            prec["step_error"] = f"{st['k']}: {type(e).__name__}: {str(e)[:200]}"
+            return prec
+
+    def snap(x: Any) -> Dict[str, Any]:
+        for b, o in enumerate(objs):
+            if o is x:
+                return {"ref": b}
+        if isinstance(x, list):
+            return {"tree": "list"}
+        if isinstance(x, BaseModel):
+            return {"tree": "model"}
+        if isinstance(x, dict):
+            return {"tree": "dict", "value": _plain(x)}
+        return {"imm": argwire.leaf_json(x)}
+
+    store_after = []
+    for o in objs:
+        if isinstance(o, list):
+            store_after.append({"k": "list", "xs": [snap(x) for x in o]})
+        elif isinstance(o, BaseModel):
+            cls = type(o)
+            store_after.append({"k": "inst", "cls": cls.__name__,
+                                "fields": [{"key": f.alias or py, "v": snap(getattr(o, py)) if py in o.model_fields_set else {"unset": True}}
+                                           for py, f in cls.model_fields.items()]})
+        else:
+            store_after.append({"k": "other", "type": type(o).__name__})
+    prec["store"] = store_after
+    return prec
 
 
 def child_pycall(items: List[Dict[str, Any]]) -> List[Dict[str, Any]]:
@@ -912,6 +1030,165 @@ def construct_views(c: Dict[str, Any], m: Dict[str, Any]) -> Tuple[Any, Any]:
     return iv, mv
 
 
+# ---- programs: calls interleaved with the caller's own statements, over objects the caller keeps -------------
+
+PROGRAM_FUEL = 16
+
+
+def _alloc(rng: random.Random, case: Dict[str, Any], store: List[Dict[str, Any]], spec: Any, gt: Optional[List[Any]], share_p: float) -> Dict[str, Any]:
+    """allocate the objects of a value spec bottom-up (children get lower addresses than their holders: no cycles);
+    with probability `share_p` an instance position refers to an instance of the same class that already exists"""
+    if not isinstance(spec, dict) or spec.get("k") not in ("list", "model"):
+        return {"imm": spec}
+    if spec["k"] == "list":
+        igt = gt[1] if gt and gt[0] == "list" else None
+        items = [_alloc(rng, case, store, x, igt, share_p) for x in spec["xs"]]
+        store.append({"k": "list", "xs": items, "gt": gt})
+        return {"ref": len(store) - 1}
+    cands = [a for a, o in enumerate(store) if o["k"] == "inst" and o["cls"] == spec["cls"]]
+    if cands and rng.random() < share_p:
+        return {"ref": rng.choice(cands)}
+    fields = []
+    for f, fd in zip(spec["fields"], case["inputs"][spec["cls"]]):
+        if is_unset(f["v"]):
+            fields.append({"name": f["name"], "v": {"imm": {"k": "unset"}}})
+        else:
+            fields.append({"name": f["name"], "v": _alloc(rng, case, store, f["v"], argwire.to_gt(fd["type"]), share_p), "by": f.get("by", "alias")})
+    store.append({"k": "inst", "cls": spec["cls"], "fields": fields})
+    return {"ref": len(store) - 1}
+
+
+def _gen_mutation(rng: random.Random, case: Dict[str, Any], store: List[Dict[str, Any]]) -> Optional[Dict[str, Any]]:
+    """one statement of the caller that keeps every object schema-valid and the object graph acyclic
+    (an object only ever refers to objects with lower addresses)"""
+    cands: List[Tuple[str, int, Optional[int], List[Any]]] = []
+    for a, o in enumerate(store):
+        if o["k"] == "inst":
+            for i, fd in enumerate(case["inputs"][o["cls"]]):
+                gt = argwire.to_gt(fd["type"])
+                if gt[0] == "named":
+                    cands.append(("setField", a, i, gt))
+        elif o["k"] == "list" and o.get("gt") and o["gt"][0] == "list" and o["gt"][1][0] == "named" and o["gt"][1][1] in case["inputs"]:
+            cands.append(("append", a, None, o["gt"][1]))
+            for i in range(len(o["xs"])):
+                cands.append(("setItem", a, i, o["gt"][1]))
+    rng.shuffle(cands)
+    for kind, a, i, gt in cands:
+        if gt[1] in case["inputs"]:
+            refs = [b for b in range(a) if store[b]["k"] == "inst" and store[b]["cls"] == gt[1]]
+            opts: List[Dict[str, Any]] = [{"ref": b} for b in refs]
+            if kind == "setField" and not gt[2]:
+                opts.append({"imm": None})
+            if not opts:
+                continue
+            v = rng.choice(opts)
+        else:
+            v = {"imm": argwire.gen_value(rng, case, gt, top=False, inherited=True, depth=3)}
+        st: Dict[str, Any] = {"k": kind, "a": a, "v": v}
+        if i is not None:
+            st["i"] = i
+        if kind == "setField":
+            st["by"] = "name"
+        return st
+    return None
+
+
+def gen_program(rng: random.Random, case: Dict[str, Any]) -> Optional[Dict[str, Any]]:
+    """`objs = ...; client.m(objs); <the caller updates some of them>; client.m(objs)` (two or three calls)"""
+    ops = [op for op in case["ops"] if op["defs"]]
+    if not ops:
+        return None
+    pref = [op for op in ops if any(argwire.base_of(d["type"]) in case["inputs"] for d in op["defs"])]
+    op = rng.choice(pref or ops)
+    store: List[Dict[str, Any]] = []
+    share_p = rng.choice([0.0, 0.3, 0.6])
+    for cls in case["inputs"]:  # spare instances first: anything may be pointed at them later
+        for _ in range(rng.randint(0, 2)):
+            _alloc(rng, case, store, argwire.gen_value(rng, case, ["named", cls, True], top=False, depth=2), ["named", cls, True], 0.0)
+    args = []
+    for d in op["defs"]:
+        gt = argwire.to_gt(d["type"])
+        if not gt[2] and rng.random() < 0.15:
+            args.append({"imm": {"k": "unset"}})
+        else:
+            args.append(_alloc(rng, case, store, argwire.gen_value(rng, case, gt, top=True), gt, share_p))
+    steps: List[Dict[str, Any]] = [{"k": "call", "op": op["name"], "args": args, "seed": rng.randrange(1 << 30)}]
+    sim = json.loads(json.dumps(store))
+    for _ in range(rng.randint(1, 2)):
+        for _ in range(rng.randint(1, 3)):
+            st = _gen_mutation(rng, case, sim)
+            if st is not None:
+                steps.append(st)
+                prog_apply(sim, st)
+        steps.append({"k": "call", "op": op["name"], "args": args, "seed": rng.randrange(1 << 30)})
+    return {"store": store, "steps": steps}
+
+
+def prog_apply(store: List[Dict[str, Any]], st: Dict[str, Any]) -> None:
+    """the caller's own statement on the (Python-side) picture of its objects; a call changes nothing"""
+    if st["k"] == "setField":
+        f = store[st["a"]]["fields"][st["i"]]
+        f["v"] = st["v"]
+        f.setdefault("by", "alias")
+    elif st["k"] == "setItem":
+        store[st["a"]]["xs"][st["i"]] = st["v"]
+    elif st["k"] == "append":
+        store[st["a"]]["xs"].append(st["v"])
+
+
+def prog_deref(store: List[Dict[str, Any]], cv: Dict[str, Any]) -> Any:
+    """the value spec a caller value denotes now"""
+    if "imm" in cv:
+        return cv["imm"]
+    o = store[cv["ref"]]
+    if o["k"] == "list":
+        return {"k": "list", "xs": [prog_deref(store, x) for x in o["xs"]]}
+    return {"k": "model", "cls": o["cls"],
+            "fields": [{"name": f["name"], "v": prog_deref(store, f["v"]), "by": f.get("by", "alias")} for f in o["fields"]]}
+
+
+def program_line(case: Dict[str, Any], out: Dict[str, Any], prog: Dict[str, Any]) -> Dict[str, Any]:
+    classes = out.get("inputs") or {}
+
+    def cv(v: Dict[str, Any]) -> Dict[str, Any]:
+        return {"ref": v["ref"]} if "ref" in v else {"imm": argwire.to_av(v["imm"], classes)}
+
+    store = []
+    for o in prog["store"]:
+        if o["k"] == "list":
+            store.append({"k": "list", "xs": [cv(x) for x in o["xs"]]})
+        else:
+            decl = classes[o["cls"]]
+            store.append({"k": "inst", "cls": o["cls"],
+                          "fields": [{"key": decl[i]["alias"] or decl[i]["py"], "ann": decl[i]["ann"], "v": cv(f["v"])} for i, f in enumerate(o["fields"])]})
+    steps = []
+    for st in prog["steps"]:
+        if st["k"] == "call":
+            defs = out["defs"][st["op"]]
+            steps.append({"k": "call", "opName": st["op"], "opText": "",
+                          "defs": [{"name": d["name"], "type": d["type"], **({"default": d["default"]} if "default" in d else {})} for d in defs],
+                          "args": [cv(a) for a in st["args"]]})
+        else:
+            steps.append({**{k: st[k] for k in ("k", "a", "i") if k in st}, "v": cv(st["v"])})
+    return {"op": "program", "kinds": out["kinds"], "scalars": argwire.scalars_cfg_json(case), "snake": case["snake"], "async": case["async"],
+            "store": store, "steps": steps, "fuel": PROGRAM_FUEL}
+
+
+def model_store_view(objs: List[Dict[str, Any]]) -> List[Dict[str, Any]]:
+    def v(x: Dict[str, Any]) -> Dict[str, Any]:
+        return {"imm": wire.dec(x["imm"])} if "imm" in x else x
+
+    out = []
+    for o in objs:
+        if o["k"] == "list":
+            out.append({"k": "list", "xs": [v(x) for x in o["xs"]]})
+        elif o["k"] == "inst":
+            out.append({"k": "inst", "cls": o["cls"], "fields": [{"key": f["key"], "v": v(f["v"])} for f in o["fields"]]})
+        else:
+            out.append(o)
+    return out
+
+
 def input_defaults(ischema: Dict[str, Any]) -> Dict[str, Dict[str, Any]]:
     return {t["name"]: {f["name"]: wire.dec(f["default"]) for f in t["fields"] if "default" in f}
             for t in ischema["types"] if t["kind"] == "input"}
@@ -1038,7 +1315,7 @@ def canon_log(log: List[Any]) -> List[Any]:
     return [[e[1], e[2]] for e in log if e[0] == "serialize"]
 
 
-def e2e_cases(ctx: Ctx, n: int, label: str, trigger_names: float = 0.05, intro_p: float = 0.4) -> List[Dict[str, Any]]:
+def e2e_cases(ctx: Ctx, n: int, label: str, trigger_names: float = 0.05, intro_p: float = 0.4, programs: int = 2) -> List[Dict[str, Any]]:
     rng = ctx.sub_rng(label)
     cases = []
     for _ in range(n):
@@ -1047,6 +1324,14 @@ def e2e_cases(ctx: Ctx, n: int, label: str, trigger_names: float = 0.05, intro_p
         # how the generator obtains the schema: schema_path (SDL) or remote_schema_url (introspection)
         c["source"] = "intro" if rng.random() < intro_p else "sdl"
         c["constructs"] = make_constructs(rng, c, 2)
+        # sequences of calls over objects the caller keeps and updates (not for the introspection source: C03-F9 would
+        # refuse some of the objects)
+        c["programs"] = []
+        if c["source"] == "sdl":
+            for _ in range(programs):
+                pr = gen_program(rng, c)
+                if pr is not None:
+                    c["programs"].append(pr)
         cases.append(c)
     return cases
 
@@ -1100,6 +1385,39 @@ def judge_e2e(ctx: Ctx, st: Optional[LeanStatus], res: Result, cases: List[Dict[
                     continue
                 lines.append(construct_line(case, out, c))
                 meta.append(("construct", (ci, c, "directed"), None))
+        for prog, prec in zip(case.get("programs", []), out.get("programs", [])):
+            pinp = {"case": inp_case, "programs": [prog]}
+            if "build_error" in prec or "step_error" in prec:
+                # every object and every statement of a generated program is schema-valid by construction
+                per_case[ci].append(Failure("input-model-refuses-valid-value", None, pinp, prec.get("build_error") or prec.get("step_error")))
+                continue
+            sim = json.loads(json.dumps(prog["store"]))
+            views = []
+            k = 0
+            for stp in prog["steps"]:
+                if stp["k"] != "call":
+                    prog_apply(sim, stp)
+                    res.count("program:statement:" + stp["k"])
+                    continue
+                rec = prec["calls"][k]
+                k += 1
+                # the property for THIS call: the resolver receives what the caller's objects hold NOW
+                now = {"op": stp["op"], "values": [prog_deref(sim, a) for a in stp["args"]], "seed": stp.get("seed", 0), "n_corrupt": 0}
+                ir = methods.get(stp["op"])
+                pdefs = out["defs"][stp["op"]]
+                pt = py_triggers(ir, pdefs, case) if ir else {}
+                inside = [t for t in TRIGGERS if pt.get(t)]
+                res.seen(["program", inp_case, prog["steps"], k], nontrivial=True)
+                res.count("program:call#%d" % min(k, 3))
+                res.count("program:call-inside-trigger" if inside else "program:call-outside-triggers")
+                for sig, var, detail in judge_call(case, out, now, rec):
+                    trig = trigger_for(ir, pdefs, case, sig, var, detail)
+                    per_case[ci].append(Failure(sig if k == 1 else sig + "-on-later-call", trig, pinp,
+                                                f"call #{k} of the program, op {stp['op']} ${var}: {detail}"))
+                views.append((now, rec, inside))
+            if out.get("inputs") is not None and all(methods.get(stp["op"]) is not None for stp in prog["steps"] if stp["k"] == "call"):
+                lines.append(program_line(case, out, prog))
+                meta.append(("program", (ci, prog, prec, views), None))
         for call, rec in zip(case.get("calls", []), out.get("calls", [])):
             ir = methods.get(call["op"])
             res.count("e2e:outcome:" + rec["outcome"])
@@ -1147,6 +1465,26 @@ def judge_e2e(ctx: Ctx, st: Optional[LeanStatus], res: Result, cases: List[Dict[
                         continue
                     lines.append({"op": "coerce", "schema": out["ischema"], "defs": idefs, "inputs": wire.enc(item["inputs"])})
                     meta.append(("coerce", (ci, call, item), None))
+    def cmp_send(obs: str, inp: Any, call: Dict[str, Any], rec: Dict[str, Any], m: Any, trig: Optional[str]) -> None:
+        """what a call REALLY sent (variables at the transport, serialize log) vs what the model says it sends"""
+        if m is None:
+            res.mismatches.append(Mismatch(obs, inp, {"sent": rec.get("sent"), "exception": rec.get("exception")}, "the arguments denote nothing", trig))
+        elif "ok" in m:
+            mv = {"variables": wire.dec(m["ok"]["variables"]), "calls": m["ok"]["calls"]}
+            if "sent" not in rec:
+                res.mismatches.append(Mismatch(obs, inp, {"exception": rec.get("exception"), "message": rec.get("message")}, mv, trig))
+            else:
+                iv = {"variables": rec["sent"], "calls": canon_log(rec.get("log", []))}
+                if not (common.same_json(iv["variables"], mv["variables"], ordered=True) and common.same_json(iv["calls"], mv["calls"])):
+                    res.mismatches.append(Mismatch(obs, inp, iv, mv, trig))
+                elif len(res.samples) < 4 and len(call["values"]) >= 2:
+                    res.sample({"observation": obs, "input": {"op": call["op"], "values": call["values"]}, "impl": iv, "model": mv})
+        else:
+            want = {"SyntaxError": None, "TypeError": "TypeError", "raised": None, "serialization": "PydanticSerializationError"}.get(m.get("error"))
+            if "sent" in rec or (want is not None and rec.get("exception") != want):
+                res.mismatches.append(Mismatch(obs, inp, {"sent": rec.get("sent"), "exception": rec.get("exception")}, m, trig))
+            res.count("send:model-error:" + str(m.get("error")))
+
     if st is not None and st.driver_ok and lines:
         model = common.run_driver(PROP, lines)
         for (kind, info, _), m in zip(meta, model):
@@ -1155,21 +1493,21 @@ def judge_e2e(ctx: Ctx, st: Optional[LeanStatus], res: Result, cases: List[Dict[
                 case = cases[ci]
                 trig = inside[0] if inside else None
                 inp = {"case": case_key(case), "calls": [call]}
-                if "ok" in m:
-                    mv = {"variables": wire.dec(m["ok"]["variables"]), "calls": m["ok"]["calls"]}
-                    if "sent" not in rec:
-                        res.mismatches.append(Mismatch("send", inp, {"exception": rec.get("exception"), "message": rec.get("message")}, mv, trig))
-                    else:
-                        iv = {"variables": rec["sent"], "calls": canon_log(rec.get("log", []))}
-                        if not (common.same_json(iv["variables"], mv["variables"], ordered=True) and common.same_json(iv["calls"], mv["calls"])):
-                            res.mismatches.append(Mismatch("send", inp, iv, mv, trig))
-                        elif len(res.samples) < 4 and len(call["values"]) >= 2:
-                            res.sample({"observation": "send", "input": {"op": call["op"], "values": call["values"]}, "impl": iv, "model": mv})
-                else:
-                    want = {"SyntaxError": None, "TypeError": "TypeError", "raised": None, "serialization": "PydanticSerializationError"}.get(m.get("error"))
-                    if "sent" in rec or (want is not None and rec.get("exception") != want):
-                        res.mismatches.append(Mismatch("send", inp, {"sent": rec.get("sent"), "exception": rec.get("exception")}, m, trig))
-                    res.count("send:model-error:" + str(m.get("error")))
+                cmp_send("send", inp, call, rec, m, trig)
+            elif kind == "program":
+                ci, prog, prec, views = info
+                case = cases[ci]
+                inp = {"case": case_key(case), "programs": [prog]}
+                reqs = m.get("requests", [])
+                if len(reqs) != len(views):
+                    res.mismatches.append(Mismatch("program", inp, f"{len(views)} calls", f"{len(reqs)} requests"))
+                    continue
+                for (call, rec, inside), mr in zip(views, reqs):
+                    cmp_send("program-send", inp, call, rec, mr, inside[0] if inside else None)
+                if "store" in prec:
+                    ms = model_store_view(m.get("store", []))
+                    if not common.same_json(prec["store"], ms):
+                        res.mismatches.append(Mismatch("program-store", inp, prec["store"], ms))
             elif kind == "construct":
                 ci, c, origin = info
                 case = cases[ci]
@@ -1256,6 +1594,7 @@ def replay_witnesses(ctx: Ctx, st: Optional[LeanStatus], res: Result) -> None:
         argwire.finish_case(c)
         c["calls"] = payload.get("calls", [])
         c["constructs"] = payload.get("constructs", [])
+        c["programs"] = payload.get("programs", [])
         cases.append(c)
     outs = engine.pmap_forked(child_e2e, [(c,) for c in cases], timeout=240)
     sub = Result()
@@ -1291,6 +1630,7 @@ def run(ctx: Ctx, st: Optional[LeanStatus]) -> Result:
     res.rule = ("direct: one evaluation = one (operation, variant) pushed through the real ArgumentsGenerator/add_method and the model, "
                 "non-trivial when it declares at least one variable, or one input class (per schema source) compared attribute by attribute; "
                 "construct: one evaluation = one constructor call of a really generated input class, non-trivial when it passes a keyword; "
+                "program: one evaluation = one call inside a sequence of calls and caller statements over shared objects; "
                 "e2e: one evaluation = one call of a real generated method (package generated from schema_path or remote_schema_url), "
                 "non-trivial when it passes at least one argument; coerce: one evaluation = one variables object (sent or corrupted) "
                 "given to graphql-core and to Spec.Coerce; distinct = distinct canonical inputs")
@@ -1312,6 +1652,9 @@ def run(ctx: Ctx, st: Optional[LeanStatus]) -> Result:
         "input-model instances are constructed through the generated classes; a value the class refuses (None item in a `[T]!` field: C06-F1 region) is outside 'schema-valid Python arguments' and is not generated",
         "no generated input type has two fields that share a Python name or alias (fooBar/foo_bar, _x/x, class/class_: the region of C18-F1..F5, F7 = C06-F7; "
         "Proved_03 of the constructibility theorems); the construct observation passes valid values only (lax/strict leaf validation is C06's subject)",
+        "programs: an instance holds its own copies of the lists handed to its constructor (pydantic validation copies lists and keeps "
+        "instances by reference; observed on the real objects by identity), pydantic's model_dump reads without writing (snapshot "
+        "comparison), object graphs are acyclic, the caller's statements keep every object schema-valid",
         "the introspection source is served by graphql-core on the same SDL (no deprecated input fields are generated; default values are the ones graphql-core prints)",
         "GraphQL names that do not map to Python identifiers (C18-F4: `$_1` with snake-casing) make generation itself fail (C04/C18); such operations have no method and are not generated here",
         "enum internal values are the enum value names (schemas built from SDL)",
@@ -1335,6 +1678,7 @@ def replay(ctx: Ctx, payload: Dict[str, Any]) -> int:
     argwire.finish_case(c)
     c["calls"] = inp.get("calls", [])
     c["constructs"] = inp.get("constructs", [])
+    c["programs"] = inp.get("programs", [])
     outs = engine.pmap_forked(child_e2e, [(c,)], timeout=240)
     res = Result()
     per_case = judge_e2e(ctx, None, res, [c], outs)
@@ -1343,6 +1687,17 @@ def replay(ctx: Ctx, payload: Dict[str, Any]) -> int:
     for cons in out.get("constructs", []) if isinstance(out, dict) else []:
         print("construct", cons.get("cls"), "keys", cons.get("keys"), "->", "set " + json.dumps(cons.get("set")) if "set" in cons
               else "refused " + json.dumps({k: cons.get(k) for k in ("missing", "other_errors", "inner") if k in cons})[:300])
+    for prog, prec in zip(c["programs"], out.get("programs", []) if isinstance(out, dict) else []):
+        k = 0
+        for stp in prog["steps"]:
+            if stp["k"] == "call":
+                rec = prec.get("calls", [])[k] if k < len(prec.get("calls", [])) else {}
+                k += 1
+                print(f"program call #{k}", stp["op"], "->", rec.get("outcome"), "sent", json.dumps(rec.get("sent"))[:300])
+            else:
+                print("program statement", json.dumps(stp)[:200])
+        if "build_error" in prec or "step_error" in prec:
+            print("program error", prec.get("build_error") or prec.get("step_error"))
     for call, rec in zip(c["calls"], out.get("calls", []) if isinstance(out, dict) else []):
         print("call", call["op"], json.dumps(call["values"])[:300])
         print("  ->", rec.get("outcome"), rec.get("exception", ""), "sent", json.dumps(rec.get("sent"))[:300], "received", json.dumps(rec.get("received"))[:300])
